@@ -268,7 +268,7 @@ pub fn check(info: &mut CaseInfo, docs: &[DocSpec], keep_tags: bool) -> CheckRes
 }
 
 fn tag_use() -> impl Strategy<Value = TagUse> {
-    prop_oneof![
+    crate::oneof![
         2 => Just(TagUse::None),
         1 => Just(TagUse::NonSpecific),
         3 => (0..NAMES.len()).prop_map(TagUse::Local),
@@ -280,7 +280,7 @@ fn tag_use() -> impl Strategy<Value = TagUse> {
 
 pub fn doc_spec() -> impl Strategy<Value = DocSpec> {
     (
-        proptest::option::weighted(0.3, 0usize..4),
+        crate::oneof![7 => Just(None), 3 => (0usize..4).prop_map(Some)],
         proptest::collection::vec((0..HANDLES.len(), 0..PREFIXES.len()), 0..4),
         any::<bool>(),
         proptest::bool::weighted(0.15),
